@@ -22,7 +22,8 @@ RULE = ('sequential: histories of push/pull/peek on both sides over prefixes {No
         'fuzzer (linearizability against the deque model, exactly-once, per-producer order) and free-running '
         'threads/processes (exactly-once, real-time per-producer order). evaluations = calls judged + histories '
         'checked; distinct_nontrivial = distinct (operation, prefix, side, outcome class) cells + distinct schedules '
-        'with a preemption inside an operation')
+        'with a preemption inside an operation'
+        ' Plus peek-race schedules: one file-backed item queued, one client only peeks, one only pulls, one pushes (the queue drains and restarts its numbering while a peek is between SELECT and fetch).')
 DISTINCT = ('cells', 'schedules')
 REQUIRED = ('peek_race_schedules', 'jobs_given_back_by_a_rolled_back_block', 'sequential_calls', 'pulls_of_expired_heads', 'file_backed_items', 'ordinary_keys_interleaved',
             'schedules_checked', 'free_runs', 'items_delivered_concurrently', 'prefix_extension_cases',
